@@ -7,6 +7,7 @@ import Grenad.Model.Meta
 import Grenad.Model.IO
 import Grenad.Proofs.Wave3IO
 import Grenad.Proofs.MetaIOProofs
+import Grenad.Generated.Constants
 
 namespace Grenad.Props.C13
 
@@ -359,3 +360,15 @@ open Grenad.Props.C13
 #print axioms C13_open_ok_sound
 #print axioms C16_open_io
 end AuditOpen
+
+namespace Grenad.Props.C13
+
+/-- Translator tie: the magic numbers, record sizes and accepted codec ids extracted from /repo's
+    current sources (regenerated on every run) are exactly the ones the model and `ValidTrailer` use. -/
+theorem C13_constants_from_source :
+    Grenad.Generated.magicV2 = Grenad.Meta.magicV2 ∧ Grenad.Generated.magicV1 = Grenad.Meta.magicV1 ∧
+    Grenad.Generated.magicV2 = 0x6723D4C4 ∧ Grenad.Generated.magicV1 = 0x76324D4C ∧
+    Grenad.Generated.metadataV2Size + 4 = 22 ∧ Grenad.Generated.metadataV1Size + 4 = 21 ∧
+    Grenad.Generated.acceptedCodecIds = [0, 1, 2, 3, 4, 5] := by decide
+
+end Grenad.Props.C13
